@@ -676,13 +676,14 @@ ElemNumber::getPreviousNode(
             {
                 next = pos->getParentNode();
 
+                // An attribute has no parent node, so next can be null here.
                 if(0 != next &&
-                   next->getNodeType() == XalanNode::DOCUMENT_NODE ||
-                   (0 != fromMatchPattern &&
+                   (next->getNodeType() == XalanNode::DOCUMENT_NODE ||
+                    (0 != fromMatchPattern &&
                         fromMatchPattern->getMatchScore(
                             next,
                             *this,
-                            executionContext) != XPath::eMatchScoreNone))
+                            executionContext) != XPath::eMatchScoreNone)))
                 {
                     pos = 0; // return 0 from function.
 
